@@ -8,5 +8,5 @@ def build(reg):
         "verify": specs,
         "lemmas": [],
         "trusted": [toc.T_PLUGIN] + tocreg.T_TOCREG + tocreg.T_PLUGINSYS,
-        "assumptions": ["JSON-Schema generation (schema_json) and validation of stored objects against it are pydantic's / jsonschema's and checked bounded", "TOCSchemas.__init__ (loading the records back on open) is checked bounded"],
+        "assumptions": ["JSON-Schema generation (schema_json) and validation of stored objects against it are pydantic's / jsonschema's and checked bounded"],
     }
